@@ -356,10 +356,68 @@ _base_check_c09 = check
 def check(ctx):            # noqa: F811  (extends the rules above)
     _base_check_c09(ctx)
     fetching(ctx, ctx.prog)
+    foreign_scripts(ctx, ctx.prog)
     # "value locked in claims and supports is reported apart from spendable funds": the type column every output is stored with
     R.share(ctx, "C15", {"C15-T5": "C09-D7", "C15-T4": "C09-D7/CLASSIFY"})
     # "the wallet's stored history … equals the server's": transactions are stored and looked up under the id computed here
     R.share(ctx, "C05", {"C05-D3": "C09-D8"})
+
+
+def foreign_scripts(ctx, prog):
+    """"…including transactions that also carry arbitrary third-party outputs of any script kind": a script that matches none of the wallet's templates makes
+    every classification property (is_pay_pubkey_hash, has_address, pubkey_hash, …) raise ValueError (Script.parse).  While a transaction of the history is
+    stored, outputs and spent outputs that are NOT known to be the wallet's are classified — each such read must be shielded, or one foreign output keeps
+    the whole address from ever syncing."""
+    sp = ctx.fa("lbry.wallet.script.Script.parse")
+    rz = [r for r in sp.stmts(ast.Raise) if r.exc is not None and "ValueError" in unparse(r.exc)]
+    ctx.ob("C09-D9/TOTAL", True, sp.site(rz[0]) if rz else sp.site(), "Script.parse " + ("raises ValueError when no template matches (so readers must be shielded)" if rz else
+           "does not raise on an unknown script (readers need no shield)"), func=sp.fi.qualname, key="C09-D9/TOTAL|parse-raises")
+    if not rz:
+        return
+    io = ctx.fa(f"{DB}._transaction_io")
+    CLASSIFY = {"has_address", "pubkey_hash", "script_hash", "get_address", "template", "values", "is_claim", "is_support", "is_pubkey_hash", "is_script_hash"}
+
+    def catches_value_error(t):
+        return any(h.type is None or any(x in ("ValueError", "Exception", "BaseException") for x in R.handler_types(h)) for h in t.handlers)
+
+    def leaves(h):
+        return bool(h.body) and isinstance(h.body[-1], (ast.Continue, ast.Return, ast.Raise, ast.Break))
+    # the variables that denote not-known-to-be-ours outputs: loop variables over tx.outputs, and names bound to txi.txo_ref.txo
+    foreign = {}
+    for lp in io.stmts(ast.For):
+        if unparse(lp.iter).endswith(".outputs") and isinstance(lp.target, ast.Name):
+            foreign[lp.target.id] = lp
+    for a in io.stmts(ast.Assign):
+        if unparse(a.value).endswith(".txo_ref.txo") and len(a.targets) == 1 and isinstance(a.targets[0], ast.Name):
+            foreign[a.targets[0].id] = a
+    n = 0
+    for x in io.local_nodes(ast.Attribute):
+        base = x.value
+        is_script_read = isinstance(base, ast.Attribute) and base.attr == "script" and isinstance(base.value, ast.Name) and base.value.id in foreign and (x.attr.startswith("is_") or x.attr in CLASSIFY)
+        is_txo_read = isinstance(base, ast.Name) and base.id in foreign and x.attr in CLASSIFY
+        if not (is_script_read or is_txo_read):
+            continue
+        var = base.value.id if is_script_read else base.id
+        n += 1
+        t = io.lexically_inside(x, lambda a: isinstance(a, ast.Try) and catches_value_error(a))
+        shielded = t is not None and any(y is x for b in t.body for y in ast.walk(b))
+        if not shielded:
+            # probe idiom: an earlier statement of the same block classifies the same output inside a try whose ValueError handler leaves the iteration
+            outer = R.stmt_of(x)
+            while not shielded and outer is not None and outer is not io.fi.node and outer is not foreign.get(var):
+                cur = outer
+                while not shielded and cur is not None:
+                    prev = R.prev_stmt(cur)
+                    if isinstance(prev, ast.Try) and catches_value_error(prev) and all(leaves(h) for h in prev.handlers) and \
+                            any(isinstance(y, ast.Attribute) and y.attr in ("template", "values") and unparse(y.value) == f"{var}.script" for b in prev.body for y in ast.walk(b)):
+                        shielded = True
+                    cur = prev
+                outer = R.stmt_of(getattr(outer, "_parent", None))
+        ctx.ob("C09-D9/TOTAL", shielded, io.site(x), f"`{unparse(x)}` — classification of an output that need not be the wallet's — cannot end the storing of the transaction "
+               "(inside a try that handles ValueError, or after a probe of the same script whose failure skips the output)", func=io.fi.qualname,
+               detail="" if shielded else "a third-party output of a script kind without template raises ValueError here: the history of the address is never stored",
+               key=f"C09-D9/TOTAL|_transaction_io|{unparse(x)}|{n}")
+    ctx.floor("C09-D9/TOTAL", "classification reads on foreign outputs in _transaction_io", n, 3, site=io.site(), func=io.fi.qualname)
 
 
 def fetching(ctx, prog):
